@@ -42,7 +42,8 @@ def readerSpec {σ} [DecidableEq σ] (segs : List Bytes) (single : Out σ) (outs
       let whole := segs.flatten
       let n := recordLen whole
       if outs.length ≠ segs.length then some false
-      else if (whole.getD 0 0) ≠ 0x16 then some (allNone outs)          -- not a handshake record
+      else if (whole.getD 0 0) ≠ 0x16 then some (allNone (outs.take 1)) -- not a handshake record: nothing for it;
+                                                                        -- what follows is a stream of its own
       else if whole.length < n then some (allNone outs)                 -- never completed
       else if n > 65536 then none                                       -- beyond the stated bound
       else
